@@ -1,5 +1,5 @@
 PROP = dict(
-    coq=["Url/UrlHarness.vo", "Url/Lit.vo"],
+    coq=["Url/UrlHarness.vo", "Url/Lit.vo", "Html/HtmlHarness.vo", "Html/Lit.vo"],
     legs=[
         dict(driver="url", binary="zurl", quick=6000, thorough=120000, shard=400,
              monitors=["deterministic (same answer on 5 fresh evaluations, parent's String() called before or not)",
@@ -10,6 +10,12 @@ PROP = dict(
                        "resolve_in_directory (a path-relative reference without dot segments lands in the parent's directory)",
                        "fragment_irrelevant (the text and the text cut at its first '#' get the same answer, however many '#' follow)",
                        "scheme_relative_takes_parent_scheme (a //host reference under a parent gets the parent's scheme, RFC 3986 5.2.2)"]),
+        # "resolve against the PARENT": which URL the callers hand to NormalizeURL as the parent. The driver of C07 builds seed trees with
+        # redirect chains through the real postprocess()/preprocess(); only its monitor 4 belongs to this property (every hop of a chain
+        # of Location headers is resolved against the item it was found on, not against the seed)
+        dict(driver="htmlreq", binary="zhtml", corpus_from="C07", quick=120, thorough=3000, shard=50, only_monitors=[4],
+             monitors=["(C07)", "(C07)", "(C07)", "(C07)",
+                       "redirect_chain_followed (the item that received the page has the URL the chain of Location headers leads to, every hop resolved against its parent)"]),
     ],
     partial="The ada (WHATWG) parser, net/url and x/net/idna are oracles: the theorems are about the reference normaliser "
             "(coq/Url/Resolve.v) on URL ASTs of the reference grammar (coq/Url/RefUrl.v: in_grammar); text -> AST parsing is "
